@@ -130,6 +130,67 @@ def install(I):
     M['_ZNKSt8__detail20_Prime_rehash_policy11_M_next_bktEm'] = lambda I, this, n: (n if not isinstance(n, Sym) else I.concretize(n, 'bucket count')) or 1
     def need_rehash(I, this, nb, ne, ni): return [0, 0]
     M['_ZNKSt8__detail20_Prime_rehash_policy14_M_need_rehashEmmm'] = need_rehash
+    # std::map / std::set: red-black tree maintenance replaced by an unbalanced binary search tree (ordering-equivalent)
+    def rb_insert(I, insert_left, x, p, header):
+        il = I.concretize(insert_left, 'insert_left') if isinstance(insert_left, Sym) else insert_left
+        I.store(x + 8, _P, p); I.store(x + 16, _P, 0); I.store(x + 24, _P, 0); I.store(x, _IT(32), 0)
+        if il:
+            I.store(p + 16, _P, x)
+            if p == header: I.store(header + 8, _P, x); I.store(header + 24, _P, x)
+            elif p == I.load(header + 16, _P): I.store(header + 16, _P, x)
+        else:
+            I.store(p + 24, _P, x)
+            if p == I.load(header + 24, _P): I.store(header + 24, _P, x)
+    M['_ZSt29_Rb_tree_insert_and_rebalancebPSt18_Rb_tree_node_baseS0_RS_'] = rb_insert
+    def rb_increment(I, x):
+        r = I.load(x + 24, _P)
+        if r:
+            x = r
+            while True:
+                l = I.load(x + 16, _P)
+                if not l: return x
+                x = l
+        y = I.load(x + 8, _P)
+        while x == I.load(y + 24, _P): x = y; y = I.load(y + 8, _P)
+        return y if I.load(x + 24, _P) != y else x
+    def rb_decrement(I, x):
+        if I.load(x, _IT(32)) == 0 and I.load(I.load(x + 8, _P) + 8, _P) == x and False: return I.load(x + 24, _P)
+        l = I.load(x + 16, _P)
+        if l:
+            y = l
+            while True:
+                r = I.load(y + 24, _P)
+                if not r: return y
+                y = r
+        y = I.load(x + 8, _P)
+        while x == I.load(y + 16, _P): x = y; y = I.load(y + 8, _P)
+        return y
+    for nm in ('_ZSt18_Rb_tree_incrementPSt18_Rb_tree_node_base', '_ZSt18_Rb_tree_incrementPKSt18_Rb_tree_node_base'): M[nm] = rb_increment
+    for nm in ('_ZSt18_Rb_tree_decrementPSt18_Rb_tree_node_base', '_ZSt18_Rb_tree_decrementPKSt18_Rb_tree_node_base'): M[nm] = rb_decrement
+    # libc calendar functions on concrete arguments (symbolic arguments need a harness-specific model, see harness/C13.py)
+    def gmtime_r_(I, tp, tm):
+        import time as _t, calendar
+        t = I.load(tp, _IT(64))
+        if isinstance(t, Sym):
+            # contract model: an arbitrary broken-down time within the documented field ranges (years for 32-bit unsigned epochs)
+            for k, (lo, hi) in enumerate(((0, 60), (0, 59), (0, 23), (1, 31), (0, 11), (70, 206), (0, 6), (0, 365), (0, 0))):
+                v = I.fresh('tm_field%d' % k, 32); I.assume(z3.And(z3.UGE(I.term(v, 32), lo), z3.ULE(I.term(v, 32), hi)) if I.mode == 'BV' else z3.And(I.term(v, 32) >= lo, I.term(v, 32) <= hi))
+                if I.mode != 'BV': v.lo, v.hi = lo, hi
+                I.store(tm + 4 * k, _IT(32), v)
+            return tm
+        t = t - (1 << 64) if t >> 63 else t
+        g = _t.gmtime(t)
+        for k, v in enumerate((g.tm_sec, g.tm_min, g.tm_hour, g.tm_mday, g.tm_mon - 1, g.tm_year - 1900, (g.tm_wday + 1) % 7, g.tm_yday - 1, 0)): I.store(tm + 4 * k, _IT(32), v & 0xffffffff)
+        return tm
+    def timegm_(I, tm):
+        import calendar
+        f = [I.load(tm + 4 * k, _IT(32)) for k in range(6)]
+        if any(isinstance(x, Sym) for x in f): raise Unsupported('timegm of symbolic fields')
+        sg = lambda x: x - (1 << 32) if x >> 31 else x
+        sec, mi, hr, d, mon, yr = [sg(x) for x in f]
+        days = calendar.timegm((yr + 1900 + mon // 12, mon % 12 + 1, 1, 0, 0, 0)) // 86400 + (d - 1)
+        return (days * 86400 + hr * 3600 + mi * 60 + sec) & ((1 << 64) - 1)
+    M['gmtime_r'] = gmtime_r_; M['timegm'] = timegm_
     # osmium::not_found(id): the constructor only formats the id into the message
     I.overrides['@_ZN6osmium9not_foundC2Em'] = lambda I, *a: None
     # std::to_string(integer): only used to build exception messages -> empty string (formatting is never the subject)
